@@ -9,6 +9,11 @@ from props._script import innermost_class
 def replay_script(prop, path):
     with open(path) as f:
         doc = json.load(f)
+    if "case" not in doc["replay"]:
+        # a violation observed outside the corpus of recorded diffs (command-line runs, ...): the whole check is re-run
+        import importlib
+        print("%s replay: re-running the quick check; original case: %s" % (prop, json.dumps(doc["replay"], default=str)[:300]))
+        return importlib.import_module("props.%s" % prop.lower()).run()
     case = tuple(doc["replay"]["case"])
     chk = Check(prop, "model_checking")
     rec = corpus._record_one((case, 0))
